@@ -55,6 +55,11 @@ pub struct Scenario {
     pub hosts: Vec<HostProg>,
     pub script: Vec<(u32, Ctl)>,
     pub steps: u32,
+    /// Some(ms): a turmoil *client* is registered that finishes after that many ms of virtual time;
+    /// together with a short simulation_duration the run ends with the "ran for duration" error, whose
+    /// text is part of the trace
+    #[serde(default)]
+    pub waiter_ms: Option<u64>,
 }
 
 pub struct C01;
@@ -258,6 +263,11 @@ async fn fs_worker(log: SharedLog, me: usize, inc: u32, files: u32, ring_ops: u3
                 }
             }
         }
+        // symlinks (and a hard link) made durable together with the files
+        for k in 0..3u32 {
+            let _ = sfs::symlink(format!("{dir}/f{}-{}", (k * 7 + r) % 11, k), format!("{dir}/l{r}-{}", (k * 5 + r) % 7));
+        }
+        let _ = sfs::hard_link(format!("{dir}/f{}-0", r % 11), format!("{dir}/h{r}"));
         let _ = sfs::sync_dir(&dir);
         match sfs::read_dir(&dir) {
             Ok(rd) => {
@@ -390,6 +400,14 @@ fn execute(sc: &Scenario, keep: bool) -> (Vec<String>, u64, Option<String>, u64)
                     }
                 });
             }
+            if let Some(ms) = sc.waiter_ms {
+                let l = log.clone();
+                sim.client("waiter", async move {
+                    tokio::time::sleep(Duration::from_millis(ms)).await;
+                    l.ev(format!("waiter client done at {}us", us(turmoil::elapsed())));
+                    Ok(())
+                });
+            }
             for s in 1..=sc.steps {
                 for (at, c) in &sc.script {
                     if *at == s {
@@ -490,7 +508,14 @@ fn gen_scenario(rng: &mut Rng) -> Scenario {
         latency_us: if rng.chance(1, 3) { Some((rng.range(10, 500), rng.range(500, 4000))) } else { None },
         page_cache: rng.chance(1, 4),
     };
-    Scenario { cfg, fs, hosts, script, steps }
+    let waiter_ms = if rng.chance(1, 4) {
+        let run_ms = steps as u64 * cfg.tick_us / 1000;
+        cfg.duration_ms = rng.range(1, run_ms.max(2));
+        Some(if rng.bool() { rng.range(1, run_ms.max(2)) } else { 10 * run_ms + 1000 })
+    } else {
+        None
+    };
+    Scenario { cfg, fs, hosts, script, steps, waiter_ms }
 }
 
 impl Property for C01 {
